@@ -2,7 +2,7 @@
 import argparse, os, sys
 
 ENGINE = {
-    "C01": "layout", "C02": "layout", "C03": "layout", "C04": "layout", "C05": "layout", "C19": "layout", "C17": "layout", "C08": "multirange", "C11": "grid", "C14": "inidoc", "C13": "inidoc", "C15": "inidoc", "C20": "inidoc", "C09": "algebra", "C07": "algebra", "C06": "forms", "C10": "splines", "C18": "tables", "C12": "session",
+    "C01": "layout", "C02": "layout", "C03": "layout", "C04": "layout", "C05": "layout", "C19": "layout", "C17": "layout", "C08": "multirange", "C11": "grid", "C14": "inidoc", "C13": "inidoc", "C15": "inidoc", "C20": "inidoc", "C09": "algebra", "C07": "algebra", "C06": "forms", "C10": "splines", "C18": "tables", "C12": "session", "C16": "validate",
 }
 
 
